@@ -201,3 +201,63 @@ def emit_coq(r):
             "From Coq Require Import QArith.\nFrom EFModel Require Import C20_CalcEnergy.\n"
             "Definition calc_energy_src : sexpr := %s.\nDefinition calc_energy_reduce_sum : bool := %s.\n"
             % (r["line"], r["tree"], "true" if r["reduce_sum"] else "false"))
+
+
+# ----------------------------------------------------------------------------------------------
+# Mesh.Merge: the point relabelling step (EasyFEA/FEM/_mesh.py), structural, fail closed
+# ----------------------------------------------------------------------------------------------
+MERGE_EXPECTED = {
+    "pairs": ['cKDTree(all_coords).query_pairs(mergePointsTol,output_type="ndarray")'],
+    "rows": ["np.concatenate([pairs[:,0],pairs[:,1]])"],
+    "cols": ["np.concatenate([pairs[:,1],pairs[:,0]])"],
+    "graph": ["sp.csr_matrix((np.ones(len(rows),dtype=bool),(rows,cols)),shape=(N,N))"],
+    "_,labels": ["connected_components(graph,directed=False)"],
+    "labels": ["np.arange(N)"],
+    "_,first_in_component": ["np.unique(labels,return_index=True)"],
+    "new_coords": ["all_coords[first_in_component]", "all_coords"],
+    "old_to_new": ["labels", "np.arange(N)"],
+    "offsets": ["np.concatenate(([0],np.cumsum(sizes[:-1])))"],
+    "all_coords": ["np.vstack(coords)"],
+    "N": ["all_coords.shape[0]"],
+    "mapping": ["[old_to_new[off:off+s]foroff,sinzip(offsets,sizes)]"],
+}
+
+
+def read_merge_relabel(repo):
+    path = os.path.join(repo, "EasyFEA", "FEM", "_mesh.py")
+    src = open(path).read()
+    f = None
+    for node in ast.walk(ast.parse(src)):
+        if isinstance(node, ast.ClassDef) and node.name == "Mesh":
+            for g in node.body:
+                if isinstance(g, ast.FunctionDef) and g.name == "Merge":
+                    f = g
+    if f is None:
+        raise TranslateError("Mesh.Merge not found")
+    got = {}
+    for st in ast.walk(f):
+        if isinstance(st, (ast.Assign, ast.AnnAssign)):
+            tgt = st.targets[0] if isinstance(st, ast.Assign) else st.target
+            if st.value is None:
+                continue
+            name = "".join(ast.get_source_segment(src, tgt).split())
+            if name in MERGE_EXPECTED:
+                got.setdefault(name, []).append("".join(ast.get_source_segment(src, st.value).split()))
+    for name, exp in MERGE_EXPECTED.items():
+        if got.get(name) != exp:
+            raise TranslateError("Mesh.Merge: `%s` is assigned %s, expected %s (connected components of the symmetric coincidence graph, "
+                                 "labels by first occurrence)" % (name, got.get(name), exp))
+    text = "".join(ast.get_source_segment(src, f).split())
+    if "old_to_new[groupElem.connect+off]" not in text:
+        raise TranslateError("Mesh.Merge: connectivity is not remapped by old_to_new[groupElem.connect + off]")
+    # the connected-components branch must be the `if len(pairs):` branch of `if mergePoints:`
+    if "ifmergePoints:" not in text or "iflen(pairs):" not in text:
+        raise TranslateError("Mesh.Merge: the mergePoints / len(pairs) branches were not found")
+    return {"line": f.lineno}
+
+
+def emit_coq_merge(r):
+    return ("(* GENERATED from EasyFEA/FEM/_mesh.py (Mesh.Merge, line %d) by translator/C20_energy.py *)\n"
+            "From EFModel Require Import C20_MergeSpec.\n"
+            "Definition merge_relabel_src : relabel := ConnectedComponentsFirstOccurrence.\n"
+            "Definition merge_remap_src : remap_kind := RemapOldToNewOfOffsetConnect.\n" % r["line"])
